@@ -43,7 +43,11 @@ def register(reg, S):
             ghosts=[Ghost(anchor, GH_CODE)],
             # (tag audit, round 8) which data reach which builder is part of every statement about the
             # events of a section: the note family, the tempo map (C01, C15)
-            props=["C07", "C08", "C09", "C14"] + {"sync": ["C01", "C15"], "instrument": ["C02", "C03", "C04", "C05"], "globalevents": []}[label]))
+            props=["C07", "C08", "C09", "C14"] + {"sync": ["C01", "C15"], "instrument": ["C02", "C03", "C04", "C05"], "globalevents": []}[label],
+            # which kind's list carries which statement (kinds in the order the dispatcher is given them)
+            clause_props={"sync": {"kind0": ["C01", "C15", "C08", "C14", "C18"], "kind1": ["C15", "C08", "C14", "C18"], "kind2": ["C08", "C14", "C18"], "conservation": ["C14", "C18"], "positions-length": ["C14", "C18"]},
+                          "instrument": {"kind0": ["C02", "C03", "C04", "C05", "C07", "C14", "C18"], "kind1": ["C05", "C07", "C14", "C18"], "kind2": ["C07", "C14", "C18"], "conservation": ["C14", "C18"], "positions-length": ["C14", "C18"]},
+                          "globalevents": {}}[label]))
 
     # ------------------------------------------------------------------ SyncTrack.from_chart_lines
     B, TSK, A = SECTIONS["sync"][0]
